@@ -94,12 +94,23 @@ def _increase_defaults(ex):
 
 
 def extract(repo):
-    facts = {}
+    """Every fact is extracted on its own; a fact whose source no longer has the anchored shape is replaced by
+    a sentinel (0 / -1 / empty table) and listed in facts["failed"], so that exactly the theorems that depend on
+    it stop checking (fail closed, but only where it matters)."""
+    facts = {"failed": []}
+
+    def attempt(key, thunk, sentinel):
+        try:
+            facts[key] = thunk()
+        except Exception as e:
+            facts[key] = sentinel
+            facts["failed"].append("%s: %r" % (key, e))
+
     pr = _parse(repo, "pabutools/analysis/priceability.py")
-    facts["CHECK_ROUND_PRECISION"] = int(_const(pr, "CHECK_ROUND_PRECISION"))
-    facts["ROUND_PRECISION"] = int(_const(pr, "ROUND_PRECISION"))
-    facts["BIGM_FACTOR"] = _bigm_factor(pr)
-    facts["INCREASE_DEFAULTS"] = _increase_defaults(_parse(repo, "pabutools/rules/exhaustion.py"))
+    attempt("CHECK_ROUND_PRECISION", lambda: int(_const(pr, "CHECK_ROUND_PRECISION")), -1)
+    attempt("ROUND_PRECISION", lambda: int(_const(pr, "ROUND_PRECISION")), -1)
+    attempt("BIGM_FACTOR", lambda: _bigm_factor(pr), 0)
+    attempt("INCREASE_DEFAULTS", lambda: _increase_defaults(_parse(repo, "pabutools/rules/exhaustion.py")), (0, 1, 0))
     wraps = {}
     for rel in ["pabutools/election/instance.py", "pabutools/rules/budgetallocation.py",
                 "pabutools/election/ballot/approvalballot.py", "pabutools/election/ballot/cardinalballot.py",
@@ -108,7 +119,10 @@ def extract(repo):
                 "pabutools/election/profile/cardinalprofile.py", "pabutools/election/profile/cumulativeprofile.py",
                 "pabutools/election/profile/ordinalprofile.py",
                 "pabutools/election/satisfaction/satisfactionprofile.py"]:
-        wraps.update(_wrap_tables(_parse(repo, rel)))
+        try:
+            wraps.update(_wrap_tables(_parse(repo, rel)))
+        except Exception as e:
+            facts["failed"].append("wrap tables of %s: %r" % (rel, e))
     facts["wraps"] = wraps
     return facts
 
@@ -117,6 +131,8 @@ def render(facts) -> str:
     lines = ["(* Generated/Anchors.v -- REGENERATED from /repo's source on every run by",
              "   harness/vharness/anchors.py.  Do not edit. *)",
              "From Coq Require Import List String ZArith.", "Import ListNotations.", "Open Scope string_scope.", ""]
+    for f in facts.get("failed", []):
+        lines.append("(* EXTRACTION FAILED (sentinel value written): %s *)" % f.replace("*)", "* )"))
     lines.append("Definition CHECK_ROUND_PRECISION : Z := %d%%Z." % facts["CHECK_ROUND_PRECISION"])
     lines.append("Definition ROUND_PRECISION : Z := %d%%Z." % facts["ROUND_PRECISION"])
     lines.append("(* priceable(): INF = max(budget, costs) * BIGM_FACTOR *)")
